@@ -16,4 +16,4 @@ CONSTANTS
   StdMax = 1
   UseStdClasses = {"Pair", "List"}
   StdLayouts = {"plain"}
-INVARIANTS ReadsBack NewlineFixGood GlueFixGoodIffSeparated GlueOkNeedsSemicolon ApplySane Emit
+INVARIANTS ReadsBack NewlineFixGood NewlineFixKeepsComments GlueFixGoodIffSeparated GlueOkNeedsSemicolon ApplySane Emit
